@@ -30,9 +30,15 @@ pub fn setup_veth() {
     sh("ip link add veth0 type veth peer name veth1");
     sh("ip link set veth0 address 02:00:00:00:01:01 && ip link set veth1 address 02:00:00:00:01:02");
     sh("ip addr add 192.0.2.1/24 dev veth0");
-    sh("sysctl -q -w net.ipv6.conf.veth0.accept_dad=0 net.ipv6.conf.veth1.accept_dad=0 net.ipv6.conf.veth0.router_solicitations=0 net.ipv6.conf.veth1.router_solicitations=0 >/dev/null 2>&1 || true");
+    sh("sysctl -q -w net.ipv6.conf.veth0.accept_dad=0 net.ipv6.conf.veth1.accept_dad=0 net.ipv6.conf.veth0.router_solicitations=0 net.ipv6.conf.veth1.router_solicitations=0 net.ipv6.conf.veth0.accept_ra=0 net.ipv6.conf.veth1.accept_ra=0 >/dev/null 2>&1 || true");
     sh("ip link set veth0 up && ip link set veth1 up");
     sh("ip -6 addr add 2001:db8:0:1::1/64 dev veth0 nodad");
+    // a second pair for the lease scenarios (their configurations match the subnet 10.9.0.0/24)
+    sh("ip link add veth2 type veth peer name veth3");
+    sh("ip link set veth2 address 02:00:00:00:02:01 && ip link set veth3 address 02:00:00:00:02:02");
+    sh("ip addr add 10.9.0.1/24 dev veth2");
+    sh("sysctl -q -w net.ipv6.conf.veth2.disable_ipv6=1 net.ipv6.conf.veth3.disable_ipv6=1 >/dev/null 2>&1 || true");
+    sh("ip link set veth2 up && ip link set veth3 up");
 }
 
 // ------------------------------------------------------------ packet socket --
@@ -112,7 +118,7 @@ impl PacketSock {
     pub fn send(&self, frame: &[u8]) -> bool {
         unsafe { libc::send(self.fd, frame.as_ptr() as *const libc::c_void, frame.len(), 0) == frame.len() as isize }
     }
-    /// the next UDP datagram from port 67 to port 68 seen on the interface within `ms`: (ethernet header, payload)
+    /// the next UDP datagram from port 67 to port 68 seen on the interface within `ms`: (whole frame, payload)
     pub fn recv_dhcp(&self, ms: u64) -> Option<(Vec<u8>, Vec<u8>)> {
         let end = std::time::Instant::now() + std::time::Duration::from_millis(ms);
         let mut buf = vec![0u8; 4096];
@@ -136,7 +142,7 @@ impl PacketSock {
             }
             let ulen = u16::from_be_bytes([f[u + 4], f[u + 5]]) as usize;
             let endp = (u + ulen).min(f.len());
-            return Some((f[..u].to_vec(), f[u + 8..endp].to_vec()));
+            return Some((f.to_vec(), f[u + 8..endp].to_vec()));
         }
         None
     }
@@ -193,13 +199,42 @@ fn is_ra(f: &[u8]) -> bool {
     f.len() >= 14 + 40 + 4 && f[12] == 0x86 && f[13] == 0xdd && f[14 + 6] == 58 && f[14 + 40] == 134
 }
 
+/// A captured frame taken apart (RFC 894 / 791 / 768), checksums recomputed here.
+pub fn dissect(f: &[u8]) -> Value {
+    if f.len() < 42 {
+        return json!({"ok": false});
+    }
+    let ihl = ((f[14] & 15) as usize) * 4;
+    let u = 14 + ihl;
+    if f.len() < u + 8 {
+        return json!({"ok": false});
+    }
+    let iplen = u16::from_be_bytes([f[16], f[17]]) as usize;
+    let udplen = u16::from_be_bytes([f[u + 4], f[u + 5]]) as usize;
+    let ipsum_ok = csum(&f[14..u]) == 0;
+    let uend = (u + udplen).min(f.len());
+    let mut pseudo = vec![];
+    pseudo.extend(&f[26..30]);
+    pseudo.extend(&f[30..34]);
+    pseudo.extend([0, 17]);
+    pseudo.extend((udplen as u16).to_be_bytes());
+    pseudo.extend(&f[u..uend]);
+    let udpsum_ok = f[u + 6..u + 8] != [0, 0] && csum(&pseudo) == 0 && uend == u + udplen;
+    json!({"ok": true, "dstmac": f[0..6], "srcmac": f[6..12], "ipsrc": f[26..30], "ipdst": f[30..34], "ihl": ihl, "iplen": iplen, "udplen": udplen,
+           "paylen": uend.saturating_sub(u + 8), "framelen": f.len(), "ipsum_ok": ipsum_ok, "udpsum_ok": udpsum_ok, "ttl": f[22]})
+}
+
 // -------------------------------------------------------------- DHCP client --
 /// a BOOTREQUEST with the given message type and options (codes with raw values)
 pub fn dhcp_msg(xid: u32, chaddr: &[u8; 6], broadcast: bool, ciaddr: [u8; 4], opts: &[(u8, Vec<u8>)]) -> Vec<u8> {
+    dhcp_msg_flags(xid, chaddr, if broadcast { 0x8000 } else { 0 }, ciaddr, opts)
+}
+
+pub fn dhcp_msg_flags(xid: u32, chaddr: &[u8; 6], flags: u16, ciaddr: [u8; 4], opts: &[(u8, Vec<u8>)]) -> Vec<u8> {
     let mut d = vec![1u8, 1, 6, 0];
     d.extend(xid.to_be_bytes());
     d.extend([0, 0]);
-    d.extend(if broadcast { [0x80u8, 0] } else { [0, 0] });
+    d.extend(flags.to_be_bytes());
     d.extend(ciaddr);
     d.extend([0u8; 12]);
     d.extend(chaddr);
@@ -465,6 +500,177 @@ fn metric(body: &str, name: &str) -> i64 {
     body.lines().find(|l| l.starts_with(name) && l[name.len()..].starts_with(' ')).and_then(|l| l[name.len() + 1..].trim().parse::<f64>().ok()).map(|x| x as i64).unwrap_or(-1)
 }
 
+/// One message of a lease scenario through the real service: the same event as the function-level
+/// driver records (harness/src/dhcp.rs, level "pkt"), with lvl = "svc".
+fn lease_msg_svc(st: &mut crate::dhcp::Store, sock: &PacketSock, live: &erbium::config::SharedConfig, step: &Value) -> Value {
+    use crate::dhcp::{FOREIGN, SERVERIP, SERVERIP2, addr, client_identity, client_wire, idx, yaml_for_pool};
+    let c = step["c"].as_i64().unwrap();
+    let req = step["req"].as_i64().unwrap_or(0);
+    let kind = step["kind"].as_str().unwrap_or("discover");
+    let mtype = step["mtype"].as_i64().unwrap_or(match kind {
+        "discover" => 1,
+        "request" => 3,
+        _ => 8,
+    });
+    let sid = step["sid"].as_i64().unwrap_or(0);
+    let via_ciaddr = step["via"].as_str() == Some("ciaddr");
+    let nopolicy = step["nopolicy"].as_bool().unwrap_or(false);
+    let flags = step["flags"].as_i64().unwrap_or(0) as u16;
+    let xid = step["xid"].as_i64().unwrap_or(0x1234_0000 + c) as u32;
+    let p: Vec<i64> = step["P"].as_array().unwrap().iter().map(|x| x.as_i64().unwrap()).collect();
+    let (chaddr_v, cid) = client_wire(c);
+    let chaddr: [u8; 6] = chaddr_v.clone().try_into().unwrap();
+    st.ids.insert(client_identity(c, "pkt"), c);
+    // the pool of this message: swap the policies of the live configuration
+    let mut key = p.clone();
+    key.sort();
+    key.dedup();
+    let yaml = if nopolicy { "dhcp-policies:\n  - match-subnet: 10.8.0.0/24\n    apply-range: {start: 10.8.0.10, end: 10.8.0.20}\n".to_string() } else { yaml_for_pool(&key) };
+    let loaded = erbium::config::verif_load_config_from_string(&yaml).unwrap_or_else(|e| {
+        eprintln!("harness: generated config rejected: {}\n{}", e, yaml);
+        std::process::exit(2)
+    });
+    tokio::task::block_in_place(|| {
+        let h = tokio::runtime::Handle::current();
+        h.block_on(async {
+            let mut a = live.write().await;
+            let mut b = loaded.write().await;
+            std::mem::swap(&mut a.dhcp, &mut b.dhcp);
+        })
+    });
+    let mut opts: Vec<(u8, Vec<u8>)> = vec![];
+    if mtype >= 0 {
+        opts.push((53, vec![mtype as u8]));
+    }
+    if let Some(cid) = &cid {
+        opts.push((61, cid.clone()));
+    }
+    if req > 0 && !via_ciaddr {
+        opts.push((50, addr(req).octets().to_vec()));
+    }
+    let sidaddr = match sid {
+        1 => Some(SERVERIP),
+        2 => Some(FOREIGN),
+        3 => Some(SERVERIP2),
+        _ => None,
+    };
+    if let Some(s) = sidaddr {
+        opts.push((54, s.octets().to_vec()));
+    }
+    if let Some(w) = step["want"].as_u64() {
+        opts.push((51, (w as u32).to_be_bytes().to_vec()));
+    }
+    if let Some(pl) = step["plist"].as_array() {
+        opts.push((55, pl.iter().map(|x| x.as_u64().unwrap() as u8).collect()));
+    }
+    if let Some(v) = step["vclass"].as_str() {
+        opts.push((60, v.as_bytes().to_vec()));
+    }
+    if let Some(h) = step["hostname"].as_array() {
+        opts.push((12, h.iter().map(|x| x.as_u64().unwrap() as u8).collect()));
+    }
+    let ciaddr = if req > 0 && via_ciaddr { addr(req).octets() } else { [0; 4] };
+    let payload = dhcp_msg_flags(xid, &chaddr, flags, ciaddr, &opts);
+    let frame = udp_frame(chaddr, [0xff; 6], [0, 0, 0, 0], 68, [255, 255, 255, 255], 67, &payload);
+    let before = st.table();
+    let t0 = st.now();
+    let reply = tokio::task::block_in_place(|| {
+        sock.flush();
+        if !sock.send(&frame) {
+            return None;
+        }
+        // a reply comes within a millisecond or so; without one, wait longer only if the store changed (a reply is then due)
+        match sock.recv_dhcp(120) {
+            Some(r) => Some(r),
+            None => {
+                if st.table() != before { sock.recv_dhcp(2000) } else { None }
+            }
+        }
+    });
+    let t1 = st.now();
+    let ours = |a: std::net::Ipv4Addr| a == SERVERIP;
+    let mut echo = true;
+    let mut rsid = true;
+    let mut rtype = -1;
+    let (res, y, l, err) = match &reply {
+        Some((_, pl)) => match erbium::dhcp::dhcppkt::parse(pl) {
+            Ok(r) => {
+                use erbium::dhcp::dhcppkt;
+                echo = r.xid == xid && r.chaddr == chaddr_v && r.giaddr.is_unspecified() && r.flags == flags;
+                rsid = match r.options.other.get(&dhcppkt::OPTION_SERVERID) {
+                    Some(v) if v.len() == 4 => ours(std::net::Ipv4Addr::new(v[0], v[1], v[2], v[3])),
+                    _ => false,
+                };
+                rtype = r.options.other.get(&dhcppkt::OPTION_MSGTYPE).and_then(|v| v.first().copied()).map(|x| x as i64).unwrap_or(-1);
+                let l = match r.options.other.get(&dhcppkt::OPTION_LEASETIME) {
+                    Some(v) if v.len() == 4 => (u32::from_be_bytes([v[0], v[1], v[2], v[3]]) as i64).min(2_000_000_000),
+                    Some(_) => -2,
+                    None => -1,
+                };
+                ("ok", idx(r.yiaddr), l, String::new())
+            }
+            Err(e) => ("err", 0, -1, format!("reply does not decode: {}", e)),
+        },
+        // no reply: the reason is not visible on the wire; name the one the message itself gives
+        None => {
+            let reason = if !(mtype == 1 || mtype == 3) || nopolicy || (mtype == 3 && sidaddr.map(|s| !ours(s)).unwrap_or(false)) {
+                "ignored"
+            } else if p.is_empty() {
+                "nopool"
+            } else {
+                "noaddr"
+            };
+            (reason, 0, -1, String::new())
+        }
+    };
+    let eff: Vec<i64> = if nopolicy { vec![] } else { p.clone() };
+    json!({"ev":"msg","lvl":"svc","kind": if mtype==1 {"discover"} else if mtype==3 {"request"} else {"other"},
+           "c":c,"req":req,"P":eff,"res":res,"y":y,"L":l,
+           "minl":erbium::dhcp::pool::DEFAULT_MIN_LEASE.as_secs(),"maxl":erbium::dhcp::pool::DEFAULT_MAX_LEASE.as_secs(),
+           "t0":t0,"t1":t1,"mtype":mtype,"sidp":sidaddr.is_some(),"sidin":sidaddr.map(ours).unwrap_or(false),
+           "echo":echo,"rsid":rsid,"rtype":rtype,"err":err,"db":st.table()})
+}
+
+/// a lease scenario (see lib/dhcp_lease.py) replayed through the real service on the second veth pair
+fn lease_scenario_svc(sc: &Value, sock: &PacketSock, live: &erbium::config::SharedConfig, epoch: i64) -> Vec<Value> {
+    let mut out = vec![];
+    let u = sc["U"].as_i64().unwrap_or(4);
+    crate::dhcp::set_amap(sc["amap"].as_array().map(|a| a.iter().map(|x| x.as_u64().unwrap() as u32).collect()).unwrap_or_default());
+    let pool = erbium::dhcp::pool::Pool::verif_open(std::path::Path::new(DB)).expect("the service's lease file");
+    let _ = pool.verif_conn().busy_timeout(std::time::Duration::from_secs(2));
+    let _ = pool.verif_conn().execute("DELETE FROM leases", []);
+    let mut st = crate::dhcp::Store { pool: Some(pool), path: DB.into(), epoch, shift: 0, ids: Default::default() };
+    for c in 1..=64 {
+        st.ids.insert(crate::dhcp::client_identity(c, "pkt"), c);
+    }
+    out.push(json!({"ev":"reset","sc":sc["sc"],"lvl":"svc","U":(1..=u).collect::<Vec<i64>>(),"t":st.now(),"db":[]}));
+    for step in sc["steps"].as_array().unwrap_or(&vec![]) {
+        match step["k"].as_str().unwrap_or("") {
+            "msg" => {
+                // relayed messages are left to the function level (the reply would go to the relay)
+                if step["relay"].as_bool().unwrap_or(false) {
+                    continue;
+                }
+                out.push(lease_msg_svc(&mut st, sock, live, step));
+            }
+            "tick" => {
+                let d = step["d"].as_i64().unwrap_or(0);
+                st.shift_rows(d);
+                out.push(json!({"ev":"tick","d":d,"t":st.now()}));
+            }
+            "tickto" => {
+                let x = step["x"].as_i64().unwrap_or(0);
+                let off = step["off"].as_i64().unwrap_or(0);
+                let d = st.expiry_of(x).map(|e| e + off - st.now()).unwrap_or(0).max(0);
+                st.shift_rows(d);
+                out.push(json!({"ev":"tick","d":d,"t":st.now()}));
+            }
+            _ => {} // restarts and the C20 observers have their own service-level parts
+        }
+    }
+    out
+}
+
 /// `rig full`: cases = {acls: rule list or null, steps: [...]}
 pub fn http(args: &[String]) {
     let cases = read_ndjson(&arg(args, "--cases").expect("--cases"));
@@ -520,6 +726,7 @@ pub fn http(args: &[String]) {
         };
         tokio::time::sleep(std::time::Duration::from_millis(100)).await;
         let sock = PacketSock::open("veth1");
+        let lease_sock = PacketSock::open("veth3");
         let mut hostile_sent = 0u64;
         let mut xid = 0x1000u32;
         let mut offered: std::collections::HashMap<[u8; 6], [u8; 4]> = Default::default();
@@ -541,6 +748,12 @@ pub fn http(args: &[String]) {
                 }
             }
             out.emit(json!({"ev":"case","case":ci,"open":rules.is_none(),"meta":if case["meta"].is_null() { json!({}) } else { case["meta"].clone() }}));
+            // a lease scenario instead of steps: {"lease": scenario}
+            if case["lease"].is_object() {
+                for e in lease_scenario_svc(&case["lease"], &lease_sock, &conf, base) {
+                    out.emit(e);
+                }
+            }
             for step in case["steps"].as_array().unwrap_or(&vec![]) {
                 match step["op"].as_str().unwrap_or("") {
                     "dhcp" => {
@@ -565,9 +778,10 @@ pub fn http(args: &[String]) {
                             opts.push((54, s.iter().map(|x| x.as_u64().unwrap() as u8).collect()));
                         }
                         opts.push((55, vec![1, 3, 6, 15, 51, 54]));
+                        let flags = step["flags"].as_u64().map(|f| f as u16).unwrap_or(if step["bcast"].as_bool().unwrap_or(true) { 0x8000 } else { 0 });
                         let payload = match step["raw"].as_str() {
                             Some(h) => unhex(h),
-                            None => dhcp_msg(xid, &chaddr, step["bcast"].as_bool().unwrap_or(true), [0; 4], &opts),
+                            None => dhcp_msg_flags(xid, &chaddr, flags, [0; 4], &opts),
                         };
                         let frame = udp_frame(chaddr, [0xff; 6], [0, 0, 0, 0], 68, [255, 255, 255, 255], 67, &payload);
                         let reply = tokio::task::block_in_place(|| {
@@ -577,23 +791,38 @@ pub fn http(args: &[String]) {
                             }
                             sock.recv_dhcp(step["wait_ms"].as_u64().unwrap_or(800))
                         });
+                        let wire: Option<Value>;
                         let mut e = json!({"ev":"dhcp","case":ci,"chaddr":chaddr,"mtype":step["mtype"].as_u64().unwrap_or(1),"xid":xid,"len":payload.len(),"tag":step["tag"].as_str().unwrap_or("")});
                         match reply {
                             Some((eth, p)) => {
                                 if p.len() >= 20 && p[16..20] != [0, 0, 0, 0] {
                                     offered.insert(chaddr, [p[16], p[17], p[18], p[19]]);
                                 }
+                                let rs = reply_summary(&p);
                                 e["replied"] = json!(true);
-                                e["reply"] = reply_summary(&p);
+                                e["reply"] = rs.clone();
                                 e["dstmac"] = json!(eth[0..6]);
                                 e["srcmac_ok"] = json!(eth[6..12] == SERVER_MAC);
+                                // the frame as it is on the wire (C12 at service level)
+                                let mut w = dissect(&eth);
+                                w["ev"] = json!("wireframe");
+                                w["replied"] = json!(true);
+                                w["flags"] = json!(flags);
+                                w["yiaddr"] = rs["yiaddr"].clone();
+                                w["chaddr"] = json!(chaddr);
+                                w["payload_ok"] = json!(rs["ok"] == true && rs["xid"] == xid as u64 && rs["op"] == 2);
+                                wire = Some(w);
                             }
                             None => {
                                 e["replied"] = json!(false);
                                 e["reply"] = json!({"ok": false});
+                                wire = Some(json!({"ev":"wireframe","replied":false,"flags":flags}));
                             }
                         }
                         out.emit(e);
+                        if let Some(w) = wire {
+                            out.emit(w);
+                        }
                     }
                     "hostile" => {
                         // WireGrammar cases as frames at the three frame-facing services
@@ -645,6 +874,50 @@ pub fn http(args: &[String]) {
                         let detail = if np.0 > 0 { np.1 } else if !alive { "a service task ended".to_string() } else { format!("dhcp answered: {}, router solicitation answered: {}", dhcp_ok, ra_ok) };
                         out.emit(json!({"ev":"svc","case":ci,"hostile":hostile_sent,"panics":np.0,"alive":alive,"answered":dhcp_ok && ra_ok,"detail":detail}));
                         hostile_sent = 0;
+                    }
+                    "radv" => {
+                        // C17 at service level: the configuration of the case goes live, a router solicitation is sent, and
+                        // the advertisement that comes back over the wire is decoded by the harness's RFC decoder
+                        let cfg = &step["cfg"];
+                        let yaml = crate::radv::render(cfg).replace(" eth0:", " veth0:");
+                        let ev = match guarded(|| erbium::config::verif_load_config_from_string(&yaml)) {
+                            Err(p) => json!({"ev":"ra","lvl":"svc","cfg":cfg,"load":"panic","err":p,"outcome":"none","ra":{"ok":false,"opts":[]}}),
+                            Ok(Err(e)) => json!({"ev":"ra","lvl":"svc","cfg":cfg,"load":"rejected","err":format!("{}", e),"outcome":"none","ra":{"ok":false,"opts":[]}}),
+                            Ok(Ok(loaded)) => {
+                                {
+                                    let mut a = conf.write().await;
+                                    let mut b = loaded.write().await;
+                                    std::mem::swap(&mut a.ra, &mut b.ra);
+                                    std::mem::swap(&mut a.dns_servers, &mut b.dns_servers);
+                                    std::mem::swap(&mut a.dns_search, &mut b.dns_search);
+                                    std::mem::swap(&mut a.captive_portal, &mut b.captive_portal);
+                                }
+                                let rs = icmp6_frame(CLIENT_IF_MAC, SERVER_MAC, CLIENT_LL6.parse().unwrap(), SERVER_LL6.parse().unwrap(), &[133, 0, 0, 0, 0, 0, 0, 0, 1, 1, 2, 0, 0, 0, 1, 2]);
+                                let got = tokio::task::block_in_place(|| {
+                                    sock.flush();
+                                    if !sock.send(&rs) {
+                                        return None;
+                                    }
+                                    sock.recv_match(1500, is_ra)
+                                });
+                                let np = {
+                                    let mut p = PANICS.lock().unwrap();
+                                    let first = p.first().cloned().unwrap_or_default();
+                                    let n = p.len();
+                                    p.clear();
+                                    (n, first)
+                                };
+                                match got {
+                                    Some(f) => json!({"ev":"ra","lvl":"svc","cfg":cfg,"load":"ok","outcome":"ok","ra":crate::radv::decode(&f[54..]),"hoplimit255":f[21] == 255}),
+                                    None if np.0 > 0 => json!({"ev":"ra","lvl":"svc","cfg":cfg,"load":"ok","outcome":"panic","err":np.1,"ra":{"ok":false,"opts":[]}}),
+                                    None => json!({"ev":"ra","lvl":"svc","cfg":cfg,"load":"ok","outcome":"noadvertisement","ra":{"ok":false,"opts":[]}}),
+                                }
+                            }
+                        };
+                        out.emit(ev);
+                        if ra_task.is_finished() {
+                            out.emit(json!({"ev":"tool_error","what":"the router advertisement service ended"}));
+                        }
                     }
                     "insert" => {
                         // a row as an older version of erbium (or anything else sharing the file) may have left it
